@@ -240,6 +240,44 @@ def r02_3(ctx):
         ctx.formula('R02.3', fa.qual, r[0].value, 'k - self.p', fa.node, 'first active function of span k is k - p', label=src(r[0]))
     else:
         ctx.undecided('R02.3', fa.qual, 'return', fa.node, 'no return')
+    # span search: every route uses the Cython kernel (whose range is proved by R02.2), or -- if written in Python -- the
+    # index is clamped to the last NON-EMPTY span len(kv)-p-2 (the documented range is p <= i < len(kv)-1-p)
+    fs = ctx.prog.func(B + '.KnotVector.findspan')
+
+    def norm_size(e):
+        return src(e).replace('len(self.kv)', 'self.kv.size').replace('self.kv.shape[0]', 'self.kv.size')
+
+    LAST = 'self.kv.size - self.p - 2'
+    for r0 in guards.returns_of(fs.node):
+        v = r0.value
+        fn = call_name(v) if isinstance(v, ast.Call) else None
+        if fn in ('pyx_findspan', 'bspline_cy.pyx_findspan'):
+            ok = [src(a).replace(' ', '') for a in v.args] == ['self.kv', 'self.p', 'u']
+            ctx.decide('R02.3', fs.qual, src(r0), ok or None, r0, 'same kernel as the evaluation routines (range of the kernel: R02.2)')
+        elif fn in ('np.minimum', 'min', 'np.fmin') and len(v.args) == 2:
+            # min(search, bound): the bound must be the last non-empty span
+            cands = [a for a in v.args if 'searchsorted' not in src(a)]
+            if len(cands) == 1:
+                ctx.formula('R02.3', fs.qual, norm_size(cands[0]), LAST, r0,
+                            'the right end point belongs to the last non-empty span len(kv)-p-2; a larger clamp returns an empty span '
+                            'there and first_active_at reports a window past the last basis function', label='upper clamp of the span index: ' + src(cands[0]))
+            else:
+                ctx.undecided('R02.3', fs.qual, src(r0), r0, 'clamp not recognised')
+        elif fn in ('np.clip',) and len(v.args) == 3:
+            ctx.formula('R02.3', fs.qual, norm_size(v.args[2]), LAST, r0, 'upper clamp = last non-empty span', label='upper clamp of the span index: ' + src(v.args[2]))
+            ctx.formula('R02.3', fs.qual, norm_size(v.args[1]), 'self.p', r0, 'lower clamp = first non-empty span', label='lower clamp of the span index: ' + src(v.args[1]))
+        else:
+            conds = guards.path_conditions(r0)
+            if 'searchsorted' in src(v):
+                ctx.undecided('R02.3', fs.qual, src(r0), r0, 'Python span search without a recognised clamp')
+            elif conds and all(isinstance(n, (ast.Name, ast.Attribute, ast.Constant, ast.BinOp, ast.UnaryOp, ast.Call, ast.Subscript, ast.operator, ast.unaryop, ast.expr_context)) for n in ast.walk(v)):
+                ctx.formula('R02.3', fs.qual, norm_size(v), LAST, r0, 'boundary case returns the last non-empty span', label='boundary span: ' + src(v))
+            else:
+                ctx.undecided('R02.3', fs.qual, src(r0), r0, 'span search not recognised')
+    faa = ctx.prog.func(B + '.KnotVector.first_active_at')
+    rr0 = guards.returns_of(faa.node)
+    ok = bool(rr0) and src(rr0[-1].value).replace(' ', '') == 'self.first_active(self.findspan(u))'
+    ctx.decide('R02.3', faa.qual, src(rr0[-1]) if rr0 else 'return', ok or None, faa.node, 'reported window starts at span - p of the same span search')
     n = 0
     for q in (B + '.collocation_info', B + '.collocation_derivs_info'):
         fi = ctx.prog.func(q)
